@@ -290,11 +290,12 @@ Proof.
   intros H1 H2. unfold cs_prop.
   destruct (useE o && negb (useU o) && (c2 =? 80) && inrange); [exact H2|].
   destruct (useE o && negb (useU o) && (c2 =? 112)).
-  - destruct so; [apply cs_next_adv; assumption|].
-    destruct inrange.
-    + destruct (112 <? chprev); [exact H2 | apply cs_next_adv; assumption].
+  - destruct inrange.
+    + destruct so; [apply cs_next_adv; assumption|].
+      destruct (112 <? chprev); [exact H2 | apply cs_next_adv; assumption].
     + pose proof (skipn_len 2 p2) as SK.
       destruct (longer p2 1 && hd_is p2 45 && negb (nth_is 1 p2 93)); [|apply cs_next_adv; assumption].
+      destruct so; [apply cs_next_adv; lia|].
       destruct (nth 1 p2 0 <? 112); [unfold padv; cbn [length] in *; lia | apply cs_next_adv; lia].
   - pose proof (parse_property_adv o p2) as PP.
     destruct (parse_property o p2) as [[id q]|e q| | |]; cbn [pbind padv] in *; try contradiction; [|lia|exact I].
